@@ -220,6 +220,11 @@ partial def nested : IT → Bool
       match c with
       | .node cb ce _ _ _ => b ≤ cb && ce ≤ e && nested c
 
+/-- the parsed tree holds a `lat, lng` literal (the executable form of `¬ PE.noPoint`) -/
+partial def hasPoint : IT → Bool
+  | .node _ _ _ (some ("(" :: "pt" :: _)) _ => true
+  | .node _ _ _ _ children => children.any hasPoint
+
 /-- the tokens a leaf is printed with -/
 def leafToks (words : List String) : Option (List Tok) :=
   match (parseSExp words).bind fun (x, _) => decLit x with
@@ -288,13 +293,16 @@ def step (_ : Unit) (op impl : String) : Unit × Verdict :=
           | some t => modelParse t
           | none => ("-", none)
         -- the property, on the implementation's answers
-        let roundtrips :=
+        -- (shape = the normal form, spans nest and cover, the tree holds a lat,lng literal)
+        let (shapeOK, spansOK, point) :=
           match implText, (readSExp p).bind decIT, lexed with
-          | some _, some (it, stripped), some ts => stripped == rSE e.normC && nested it && covers ts it
-          | _, _, _ => false
-        if e.printable false && !roundtrips then .propfail "print-parse-roundtrip"
-        else if !e.printable false && e.printable true && !roundtrips then
+          | some _, some (it, stripped), some ts => (stripped == rSE e.normC, nested it && covers ts it, hasPoint it)
+          | _, _, _ => (false, false, false)
+        if e.printable false && !shapeOK then .propfail "print-parse-roundtrip"
+        else if !e.printable false && e.printable true && !shapeOK then
           .propfail "print-parse-roundtrip class=string-needs-escape"
+        else if e.printable true && shapeOK && !spansOK then
+          (if point then .propfail "span-nesting class=latlng-span" else .propfail "span-nesting")
         else if u != mu then .diff s!"U:{mu}"
         else if mp == "unsupported" then .bad
         else if p != mp then .diff s!"P:{mp}"
@@ -304,13 +312,13 @@ def step (_ : Unit) (op impl : String) : Unit × Verdict :=
       match aBytes (.atom (sdrop op 3)) with
       | some text =>
         let (mp, lexed) := modelParse text
-        let holds :=
-          !isTree impl ||
-            (match (readSExp impl).bind decIT, lexed with
-             | some (it, _), some ts => nested it && covers ts it
-             | _, _ => false)
+        let (holds, point) :=
+          if !isTree impl then (true, false) else
+            match (readSExp impl).bind decIT, lexed with
+            | some (it, _), some ts => (nested it && covers ts it, hasPoint it)
+            | _, _ => (false, false)
         if mp == "unsupported" then .bad
-        else if !holds then .propfail "span-nesting"
+        else if !holds then (if point then .propfail "span-nesting class=latlng-span" else .propfail "span-nesting")
         else if impl != mp then .diff s!"P:{mp}"
         else .ok
       | none => .bad
